@@ -34,8 +34,11 @@ impl Intersect for Line2 {
         //
         let u_b = other.dy() * self.dx() - other.dx() * self.dy();
         // Where u_b == 0 the two lines are parallel. In this case we don't need any further checks
-        // since we are only concerned with lines that cross, parallel is fine.
-        if u_b == 0. {
+        // since we are only concerned with lines that cross, parallel is fine. The coordinates
+        // carry rounding errors, so parallel means parallel to within those errors, otherwise
+        // the position of the crossing point of two collinear segments is decided by noise.
+        let lengths = self.dx().hypot(self.dy()) * other.dx().hypot(other.dy());
+        if u_b.abs() <= 1e-12 * lengths {
             return false;
         }
 
@@ -46,11 +49,11 @@ impl Intersect for Line2 {
 
         let ua = ua_t / u_b;
         let ub = ub_t / u_b;
-        // Should the points ua, ub both lie on the interval [0, 1] the lines intersect.
-        if 0. <= ua && ua <= 1. && 0. <= ub && ub <= 1. {
-            return true;
-        }
-        false
+        // Should the points ua, ub both lie on the interval [0, 1] the lines intersect. A crossing
+        // exactly at the end of a segment must not be lost to rounding, so the interval is closed
+        // with a tolerance far below any meaningful distance.
+        let eps = 1e-12;
+        -eps <= ua && ua <= 1. + eps && -eps <= ub && ub <= 1. + eps
     }
 
     fn area(&self) -> f64 {
